@@ -5,6 +5,7 @@ from mc.common import Result, seed
 from mc import forests as F
 from mc.hsmcheck import sweep, VARIANTS_ALL, mixed_style, replay_generic
 
+SAME_NAME = [("plain", "plain_same_name"), ("instrumented", "spied_same_name")]
 PID = "C03"
 
 
@@ -106,7 +107,9 @@ def run(tier):
     sweep(res, [(gen, allf, VARIANTS_ALL[:1], [None]),
                 (gen, small, VARIANTS_ALL[1:], [None, mixed_style]),
                 (gen, spine_f, VARIANTS_ALL[:2], [None]),
-                (gen_restart, [f for f in allf if len(f) <= (5 if tier == "quick" else 6)], VARIANTS_ALL, [None])])
+                (gen_restart, [f for f in allf if len(f) <= (5 if tier == "quick" else 6)], VARIANTS_ALL, [None]),
+                # every state function carries the same __name__ (distinct functions): states are known by identity
+                (gen, [f for f in allf if len(f) <= (6 if tier == "quick" else 7)], SAME_NAME, [None])])
     nested_part(res, tier)
     res.coverage.update({
         "rule": "every (forest shape<=%d states, start state, init chain below it) x hosts; non-trivial = nested "
